@@ -25,6 +25,7 @@ partial def decX (j : Json) : X :=
   | "allCases" => .allCases (kids "ps")
   | "switchCase" => .switchCase (decX (jget j "c")) (jnatOpt j "sel") (kids "as")
   | "coalesce" => .coalesce (kids "as") (flags "nulls")
+  | "defCalls" => .defCalls (decX (jget j "b")) (flags "sl") (kids "os")
   | _ => .leaf
 
 def xsJ (j : Json) (k : String) : List X := (jarr j k).map decX
